@@ -172,7 +172,7 @@ void run_C02(void) {
     unsigned n = th ? 3000 : 120;
     for (unsigned t = 0; t < n; t++) {
       uint64_t h = mix64(0xABCDEF + t);
-      uint64_t N = ALL_N[(h >> 40) % 8];  // 2..256
+      uint64_t N = ALL_N[(h >> 40) % (th ? 12 : 10)];  // 2..1024 (quick) / 2..4096 (thorough)
       uint64_t nrows = 6 + h % 35, ncols = 1 + (h >> 6) % 12;
       uint64_t as = (h >> 12) % (nrows + 3), rs = (h >> 20) % (ncols + 3);
       one_case(N, nrows, ncols, as, rs, (unsigned)(h >> 28) % 3, (int)((h >> 30) & 1), 0, t);
